@@ -64,7 +64,7 @@ impl Property for C18 {
     fn assumptions(&self) -> Vec<String> {
         vec![
             "std's RandomState takes its per-thread keys from getrandom(2) once per thread and increments them per map (checked by the start-up self-test: exactly one getrandom call per fresh thread)".to_owned(),
-            "now() is excluded from the workload (the property exempts it); TZ is pinned to UTC".to_owned(),
+            "now() is excluded from the workload (the property exempts it); TZ is UTC except in the cases that vary it on purpose (fixed-offset zones, set per world)".to_owned(),
             "runs under real OS entropy are compared too but cannot be replayed by keys; a mismatch there is reported with that caveat".to_owned(),
         ]
     }
